@@ -41,9 +41,9 @@ ASSUMPTIONS = [
     "keys of EVERY multi() <= 201 (follows from is_within_resource_limits when there is no multi(): "
     "ops_static_of_within_limits)",
     "h1000: the returned witness has at most 1000 elements (derived from is_within_resource_limits for P2WSH, "
-    "quorum-free expressions, canonical candidate: satisfy_accepted_p2wsh_partial; a hypothesis otherwise)",
-    "hcan / noQuorum (bounds theorem only): the chosen candidate is canonical (observed: always for sane expressions, "
-    "counted per run as sat.canonical) and the expression has no multi/multi_a/thresh",
+    "thresh-free expressions, canonical candidate: satisfy_accepted_p2wsh_partial; a hypothesis otherwise)",
+    "hcan / noThresh (bounds theorem only): the chosen candidate is canonical (observed: always for sane expressions, "
+    "counted per run as sat.canonical) and the expression has no thresh (multi and multi_a are covered)",
     "numsOK (T2): every number of the expression is written in at most ten digits",
 ]
 
@@ -846,8 +846,8 @@ def run(ctx):
     ctx.note("T3 (Props.C15.type_soundness, stack_arity) covers every fragment, the quorums multi, multi_a, thresh included; "
              "T4: satisfy ⊆ Sat and acceptance (satisfaction_accepted_partial / satisfy_accepted_partial) cover every fragment, "
              "partial in the 201-op hypothesis (opsStaticOK: static count + keys of every multi() <= 201) and the "
-             "1000-element hypothesis; the witness/stack bound soundness (satisfy_within_bounds_partial) covers quorum-free "
-             "expressions with a canonical chosen candidate; the rest of T4 is checked on the real code: bounds tables by the "
+             "1000-element hypothesis; the witness/stack bound soundness (satisfy_within_bounds_partial) covers thresh-free "
+             "expressions (multi, multi_a included) with a canonical chosen candidate; the rest of T4 is checked on the real code: bounds tables by the "
              "`bounds` stream, actual spends by the `spend` oracle")
     ctx.note(f"spend oracle: {produced} satisfactions produced and run through the real engine (p2wsh and tapscript)")
     for n in nodes:
